@@ -45,6 +45,22 @@ Theorem C13_scan_result_own_operations :
     = Some (OutScan (scan (fold_left apply_l (own_ops c h1) s) inp)).
 Proof. exact scan_result_own. Qed.
 
+(* repeatability: a scan writes nothing, and the same input scanned again by the same clone gives the same result
+   whatever the rest of the family did and whatever was scanned in between *)
+Theorem C13_scan_writes_nothing :
+  forall (compiled params udata input result : Type) (scan : scanner compiled params udata -> input -> result)
+         (f : list (scanner compiled params udata)) c (inp : input),
+    fst (step scan f (OScan (params := params) (udata := udata) c inp)) = f.
+Proof. exact scan_no_effect. Qed.
+
+Theorem C13_scan_repeatable :
+  forall (compiled params udata input result : Type) (scan : scanner compiled params udata -> input -> result)
+         (f : list (scanner compiled params udata)) c s inp (h h3 : list (op params udata input)),
+    nth_error f c = Some s -> own_ops c h = [] ->
+    nth_error (outputs scan f (OScan c inp :: h ++ OScan c inp :: h3)) 0
+    = nth_error (outputs scan f (OScan c inp :: h ++ OScan c inp :: h3)) (S (length h)).
+Proof. exact scan_repeatable. Qed.
+
 (* an operation on c changes no other member of the family *)
 Theorem C13_other_clones_unchanged :
   forall (compiled params udata input result : Type) (scan : scanner compiled params udata -> input -> result)
@@ -311,6 +327,8 @@ Print Assumptions C13_own_operations_only.
 Print Assumptions C13_clone_isolated.
 Print Assumptions C13_family_is_lineage_fold.
 Print Assumptions C13_scan_result_own_operations.
+Print Assumptions C13_scan_writes_nothing.
+Print Assumptions C13_scan_repeatable.
 Print Assumptions C13_other_clones_unchanged.
 Print Assumptions C13_inner_constant.
 Print Assumptions C13_compiler_symbols_distinct.
